@@ -779,6 +779,80 @@ func genCases(mode string, seed uint64, n int) []Case {
 	return b.cs
 }
 
+// Documents with many errors: the error lists keep 20 errors; what happens
+// to the parser's error state from the 21st error on decides whether the
+// recovery loops still make progress.
+var manyErrKinds = []string{
+	"1 {}\n",          // not a type name
+	"x [a b]\n",       // missing comma in a list
+	"x :\n",           // no operand
+	"x {1:2}\n",       // not an object entry
+	"x -\n",           // sign without number
+	"x {a:1} y\n",     // no separator after the value
+	"x \"\\z\"\n",     // lexing error in a string
+	"# \n",            // illegal character
+	"zz 1\n",          // unknown type (the decoder's own error list)
+	"thing { A: [a b] }\n",
+}
+
+var manyErrTails = []string{"", "{", ":", ",\n", "thing {", "thing { A: [1, 2", "thing { A: [1 2", "x [", "x {a:",
+	"x \"abc", "x /* open", "x `raw", "x", "x 1", "[", "1 {}"}
+
+var manyErrCounts = []int{19, 20, 21, 22, 40}
+
+func genManyErrors(b *builder, n int) {
+	// the inputs of the demonstration first
+	for _, k := range []int{1, 5, 19, 20, 21, 22, 40} {
+		b.add("manyerr", "series", []byte(strings.Repeat("1 {}\n", k)), withKnown)
+	}
+	for _, k := range []int{1, 19, 20, 21, 30} {
+		b.add("manyerr", "series", []byte(strings.TrimSuffix(strings.Repeat("thing { A: [a b] }\n", k), "\n")), withKnown)
+	}
+	for _, tail := range []string{"{", ":", ",\n", "thing {", "thing { A: [1, 2", "thing { A: [1 2"} {
+		b.add("manyerr", "series", []byte(strings.Repeat("1 {}\n", 20)+tail), withKnown)
+	}
+	i := 0
+	for _, kind := range manyErrKinds {
+		for _, cnt := range manyErrCounts {
+			for _, tail := range manyErrTails {
+				doc := []byte(strings.Repeat(kind, cnt) + tail)
+				b.add("manyerr", "series", doc, withKnown)
+				if i%4 == 0 {
+					b.add("manyerr", "unmarshal", doc, nil)
+				}
+				if i%7 == 0 {
+					b.add("manyerr", "ptokens", doc, nil)
+				}
+				i++
+			}
+		}
+	}
+	// mixed kinds, and single values with many errors (lexing errors inside
+	// one list / object; a value stops at its first parse error)
+	g := b.g
+	for k := 0; k < 40+n/20; k++ {
+		cnt := manyErrCounts[g.r.Intn(len(manyErrCounts))] + g.r.Intn(3)
+		var sb strings.Builder
+		for j := 0; j < cnt; j++ {
+			sb.WriteString(manyErrKinds[g.r.Intn(len(manyErrKinds))])
+		}
+		sb.WriteString(manyErrTails[g.r.Intn(len(manyErrTails))])
+		b.add("manyerr", "series", []byte(sb.String()), withKnown)
+	}
+	for _, cnt := range manyErrCounts {
+		for _, item := range []string{"# ", "\"\\z\", ", "'", "\"\\400\" ", "$ 1, "} {
+			for _, close := range []string{"]", "", "}", "\n"} {
+				doc := []byte("[" + strings.Repeat(item, cnt) + close)
+				b.add("manyerr", "unmarshal", doc, nil)
+				b.add("manyerr", "tojson", doc, nil)
+				b.add("manyerr", "series", append([]byte("x "), doc...), withKnown)
+			}
+		}
+		b.add("manyerr", "shell", []byte(strings.Repeat("\"\\z\" ", cnt)), nil)
+		b.add("manyerr", "shell", []byte(strings.Repeat("a\n", cnt)), nil)
+	}
+}
+
 func genC08(b *builder, n int) {
 	g := b.g
 	for _, s := range corpusHang {
@@ -786,6 +860,7 @@ func genC08(b *builder, n int) {
 		b.add("corpus", "unmarshal", []byte(s), nil)
 		b.add("corpus", "tojson", []byte(s), nil)
 	}
+	genManyErrors(b, n)
 	for _, s := range corpusNum {
 		b.add("corpus", "tojson", []byte(s), nil)
 	}
